@@ -318,3 +318,47 @@ Example C12_ex_event_rate : ev_stream 0 [Ev [1; 3] 0 5; Ev [6] 5 9] /\
   outs_of (run (er_step true 3 2) None [Ev [1; 3] 0 5; Ev [6] 5 9]) = Some [Rb [1] 3 2; Rb [1; 1] 5 2] /\
   event_rates 3 2 [1; 3; 6] 0 9 = [1; 1; 1].
 Proof. split; [cbn; repeat split; try lia; repeat constructor; lia|]. vm_compute. split; reflexivity. Qed.
+
+(* ================================================================== extension: event_rate with a fractional block_step
+   (coverage audit: check_event_rate_counts runs the model on positions, spans and block_size multiplied by den, with
+   block_step = stp / den).  Proofs in Stages/ProofsX.v.  Chunk invariance of the counts for ANY integers 0 <= bsz,
+   1 <= stp is C12_event_rate_values_any above; what is added: the model is invariant under a change of the unit of
+   position, the specification [event_rates] in closed form (window k = [lo + k*stp, lo + k*stp + bsz)), and the two
+   combined for the scaled run.  [scale_ev den c] = chunk c with every position multiplied by den; [counts_of r] =
+   the counts per emitted block; [n_windows] = number of windows ending before the end of the stream;
+   [count_frac den bsz stp lo ev k] = number of events x with den*lo + k*stp <= den*x < den*lo + k*stp + den*bsz. *)
+From PV Require Import Stages.ProofsX.
+
+Theorem C12_event_rate_scaling : forall rep den bsz stp (cs : list events), 1 <= den -> 0 <= bsz -> 1 <= stp ->
+  counts_of (run (er_step rep (den * bsz) (den * stp)) None (map (scale_ev den) cs)) =
+  counts_of (run (er_step rep bsz stp) None cs).
+Proof. exact event_rate_scaling. Qed.
+Print Assumptions C12_event_rate_scaling.
+Theorem C12_event_rates_closed_form : forall bsz stp ev lo hi, 0 <= bsz -> 1 <= stp ->
+  event_rates bsz stp ev lo hi =
+  zrange (fun k => count_in ev (lo + k * stp) (lo + k * stp + bsz)) 0 (n_windows bsz stp lo hi).
+Proof. exact event_rates_closed_form. Qed.
+Print Assumptions C12_event_rates_closed_form.
+Theorem C12_event_rate_fractional : forall den bsz stp lo (cs : list events),
+  1 <= den -> 0 <= bsz -> 1 <= stp -> cs <> [] -> ev_stream_any lo cs ->
+  exists st outs, run (er_step true (den * bsz) stp) None (map (scale_ev den) cs) = Some (st, outs) /\
+    concat (map r_counts outs) =
+    zrange (count_frac den bsz stp lo (ev_all cs)) 0 (n_windows (den * bsz) stp (den * lo) (den * ev_end lo cs)).
+Proof. exact event_rate_fractional. Qed.
+Print Assumptions C12_event_rate_fractional.
+Theorem C12_event_rate_fractional_chunk_invariant : forall den bsz stp lo (cs1 cs2 : list events),
+  1 <= den -> 0 <= bsz -> 1 <= stp -> cs1 <> [] -> cs2 <> [] -> ev_stream_any lo cs1 -> ev_stream_any lo cs2 ->
+  ev_all cs1 = ev_all cs2 -> ev_end lo cs1 = ev_end lo cs2 ->
+  exists st1 o1 st2 o2,
+    run (er_step true (den * bsz) stp) None (map (scale_ev den) cs1) = Some (st1, o1) /\
+    run (er_step true (den * bsz) stp) None (map (scale_ev den) cs2) = Some (st2, o2) /\
+    concat (map r_counts o1) = concat (map r_counts o2).
+Proof. exact event_rate_fractional_chunk_invariant. Qed.
+Print Assumptions C12_event_rate_fractional_chunk_invariant.
+Example C12_ex_event_rate_fractional :
+  let cs := [Ev [1; 3] 0 5; Ev [6] 5 9; Ev [] 9 9; Ev [9; 10; 15] 9 17; Ev [18] 17 19] in
+  ev_stream_any 0 cs /\
+  counts_of (run (er_step true (2 * 3) 3) None (map (scale_ev 2) cs)) = Some [[1; 1]; [1; 1]; [1; 2; 2; 0; 0; 1]; [1]] /\
+  zrange (count_frac 2 3 3 0 (ev_all cs)) 0 (n_windows (2 * 3) 3 (2 * 0) (2 * ev_end 0 cs)) = [1; 1; 1; 1; 1; 2; 2; 0; 0; 1; 1] /\
+  counts_of (run (er_step true (2 * 3) (2 * 2)) None (map (scale_ev 2) cs)) = counts_of (run (er_step true 3 2) None cs).
+Proof. exact event_rate_fractional_ex. Qed.
